@@ -861,4 +861,28 @@ theorem maxEp_segment (dones : Dones) (id M n d : Nat) : ∀ (k num g0 nEp nc nt
         omega
 
 
+/-- how many events the cadence specification contains: the multiples of `f` in `(nc, nc + number of calls]` -/
+theorem everyKthCall_length (id : Nat) (kind : Kind) (f nc : Nat) (nums : List Nat) :
+    (everyKthCall id kind f nc nums).length = (nc + nums.length) / f - nc / f := by
+  induction nums generalizing nc with
+  | nil => simp [everyKthCall]
+  | cons a t ih =>
+    have ih' := ih (nc + 1)
+    simp only [everyKthCall, List.length_map] at ih' ⊢
+    rw [List.zipIdx_cons, List.filter_cons]
+    have hs : (nc + 1) / f = nc / f + (if f ∣ nc + 1 then 1 else 0) := Nat.succ_div
+    have hmono : (nc + 1) / f ≤ (nc + 1 + t.length) / f := Nat.div_le_div_right (by omega)
+    have e : nc + (a :: t).length = nc + 1 + t.length := by simp [List.length_cons]; omega
+    rw [e]
+    by_cases hd : f ∣ nc + 1
+    · have hm : (nc + 1) % f = 0 := Nat.mod_eq_zero_of_dvd hd
+      simp only [hm, beq_self_eq_true, if_true, List.length_cons, ih']
+      simp only [hd, if_true] at hs
+      omega
+    · have hm : ((nc + 1) % f == 0) = false := by
+        simp only [beq_eq_false_iff_ne, ne_eq]; exact fun h => hd (Nat.dvd_of_mod_eq_zero h)
+      simp only [hm, Bool.false_eq_true, if_false, ih']
+      simp only [hd, if_false] at hs
+      omega
+
 end SB3Verif.Callback.Lemmas
